@@ -8,6 +8,8 @@ from harness.common import run_driver, f2b, b2f, close, err_enum
 ID = "C01"
 LEAN_MODULES = ["HierArc.Props.C01"]
 TRANSLATE = ["ladders"]
+# when the translator cannot follow a rewritten source, the last generated model is run against the implementation instead
+TRANSLATOR_FALLBACK = True
 RULE = ("random ParamManager configurations (5 cosmologies, every sampling switch, every distribution "
         "name, random fixed-parameter subsets per block, log_scatter, gamma_pl_num 0..4, 0..3 LOS "
         "populations with per-population fixed dicts) x random vectors; plus a malformed stream (vector "
